@@ -93,10 +93,75 @@ PROOF = {
 }
 
 
+INTERRUPTED = r'''
+import json, os, signal, sys, threading, time
+# a replacement of the singleton that is interrupted by an exception while it waits inside previous.shutdown(wait=True) (the global
+# shutdown lock is held by another thread, a SIGALRM handler raises in the caller), followed by the same request again: the previous
+# instance must be completely shut down before the new one is returned
+class Interrupted(Exception):
+    pass
+def on_alarm(signum, frame):
+    raise Interrupted()
+if __name__ == "__main__":
+    from loky import get_reusable_executor
+    from loky import process_executor as pe
+    e1 = get_reusable_executor(max_workers=2, timeout=20)
+    list(e1.map(abs, range(4)))
+    fs = [e1.submit(time.sleep, 4.0) for _ in range(2)]
+    time.sleep(0.6)
+    old = list(e1._processes.values())
+    taken = threading.Event()
+    def hold(d):
+        with pe._global_shutdown_lock:
+            taken.set(); time.sleep(d)
+    h = threading.Thread(target=hold, args=(1.5,)); h.start(); taken.wait()
+    signal.signal(signal.SIGALRM, on_alarm); signal.setitimer(signal.ITIMER_REAL, 0.5)
+    out = {"interrupted": False}
+    try:
+        get_reusable_executor(max_workers=2, timeout=21)
+    except Interrupted:
+        out["interrupted"] = True
+    finally:
+        signal.setitimer(signal.ITIMER_REAL, 0)
+    h.join()
+    out["old_alive_after_interrupt"] = sum(p.is_alive() for p in old)
+    t0 = time.time()
+    e3 = get_reusable_executor(max_workers=2, timeout=21)
+    out["second_call_s"] = round(time.time() - t0, 2)
+    out["old_workers_alive_at_return"] = [p.pid for p in old if p.is_alive()]
+    out["ids"] = [e1.executor_id, e3.executor_id]
+    out["returned_healthy"] = not (e3._flags.shutdown or e3._flags.broken) and e3 is not e1
+    out["works"] = e3.submit(pow, 2, 5).result(30)
+    print(json.dumps(out), flush=True)
+    e3.shutdown(kill_workers=True)
+    for p in old:
+        try:
+            os.kill(p.pid, 9)
+        except OSError:
+            pass
+    os._exit(0)
+'''
+
+
+def interrupted_replacement(ctx):
+    import os, sys
+    import vlib
+    sys.path.insert(0, os.path.join(vlib.VERIF, "corr", "real"))
+    import runner
+    res = runner.run_script(INTERRUPTED, vlib.REPO, timeout=120)
+    return runner.last_json(res), res
+
+
 def run(ctx):
+    import vlib
+    got, res = interrupted_replacement(ctx)
+    if got is None or (got["interrupted"] and (got["old_workers_alive_at_return"] or not got["returned_healthy"] or got["ids"][1] <= got["ids"][0] or got["works"] != 32)):
+        rp = vlib.write_replay(ctx, "interrupted", {"kind": "replacement interrupted inside previous.shutdown(wait=True), then the same request again", "observed": got,
+                                                    "stderr": res["stderr"][-800:]})
+        ctx.violations.append(("real factory: after an interrupted replacement the next call returned while the previous instance was not shut down: " + str(got)[:140], rp, False))
     return S.sim_check(ctx, FAMILIES, FAMILIES, PER_FAMILY, S.SIM_ASSUME + [
         "kwargs identity is represented by the timeout value in the generated histories (two values), the context object is the same"],
-        proof=PROOF)
+        proof=PROOF, extra_cov={"interrupted_replacement": got})
 
 
 def replay(ctx, path):
